@@ -29,7 +29,7 @@ theorem splitOnce_eq_some_iff (d : UInt8) (s a b : Bytes) :
       · rintro ⟨rfl, rfl⟩; simp
       · rintro ⟨h, hn⟩
         cases a with
-        | nil => simpa using h.symm
+        | nil => simp only [List.nil_append, List.cons.injEq, true_and] at h; simp [h]
         | cons y ys =>
           simp only [List.cons_append, List.cons.injEq] at h
           exact absurd (by simp [h.1]) hn
@@ -46,10 +46,10 @@ theorem splitOnce_eq_some_iff (d : UInt8) (s a b : Bytes) :
           rw [hs] at this; cases this
       | some p =>
         obtain ⟨a', b'⟩ := p
-        have ih' := (ih a').1 (by rw [hs]) 
         simp only [Option.some.injEq, Prod.mk.injEq]
         constructor
         · rintro ⟨rfl, rfl⟩
+          have ih' := (ih a').1 hs
           refine ⟨by simp [ih'.1], ?_⟩
           intro hm
           simp only [List.mem_cons] at hm
@@ -139,9 +139,9 @@ theorem verify_iff (C : Crypto) (keys : List (Nat × PubKey)) (req nonce : Bytes
                     · simp only [hver, if_true] at h
                       have : sg = sig := by simpa using h
                       subst this
-                      refine ⟨raw, sigHex, hashHex, r, s, pk, rfl, by simpa using hv, rfl, ?_, hs, hd, rfl, hver⟩
+                      refine ⟨raw, sigHex, hashHex, r, s, pk, rfl, by simpa using hv, hsp, ?_, hs, hd, rfl, hver⟩
                       have : hbytes = C.sha256 req := by simpa using hne
-                      rw [this]
+                      rw [hh, this]
                     · simp [hver] at h
   · rintro ⟨raw, sigHex, hashHex, r, s, pk, rfl, hv, hsp, hh, hs, hd, hk, hver⟩
     unfold verifyResponse
@@ -158,55 +158,33 @@ theorem verify_total (C : Crypto) (keys) (req nonce : Bytes) (etag) (resp) (kid)
 
 /-! ### Which error for which first failing condition (**verify_error_kind**) -/
 
-theorem err_missing_iff (C : Crypto) (keys) (req nonce : Bytes) (etag) (resp) (kid) :
-    verifyResponse C keys req nonce etag resp kid = .error .etagHeaderMissing ↔ etag = none := by
-  unfold verifyResponse verifyWithSignature
-  cases etag with
-  | none => simp
-  | some raw =>
-    simp only [reduceCtorEq, iff_false]
-    repeat' split
-    all_goals simp_all
+theorem err_missing (C : Crypto) (keys) (req nonce : Bytes) (resp) (kid) :
+    verifyResponse C keys req nonce none resp kid = .error .etagHeaderMissing := rfl
 
-theorem err_not_string_iff (C : Crypto) (keys) (req nonce : Bytes) (raw) (resp) (kid) :
-    verifyResponse C keys req nonce (some raw) resp kid = .error .etagNotString ↔
-      raw.all visible = false := by
-  unfold verifyResponse verifyWithSignature
-  by_cases hv : raw.all visible = false
-  · simp [hv]
-  · simp only [hv, if_false, iff_false]
-    repeat' split
-    all_goals simp_all
+theorem err_not_string (C : Crypto) (keys) (req nonce : Bytes) (raw) (resp) (kid)
+    (hv : raw.all visible = false) :
+    verifyResponse C keys req nonce (some raw) resp kid = .error .etagNotString := by
+  simp [verifyResponse, hv]
 
-theorem err_malformed_iff (C : Crypto) (keys) (req nonce : Bytes) (raw) (resp) (kid)
-    (hv : raw.all visible = true) :
-    verifyResponse C keys req nonce (some raw) resp kid = .error .etagMalformed ↔
-      (58 : UInt8) ∉ stripEtag raw := by
-  rw [← splitOnce_eq_none_iff]
-  unfold verifyResponse verifyWithSignature
-  simp only [hv, Bool.true_eq_false, if_false]
-  cases hsp : splitOnce 58 (stripEtag raw) with
-  | none => simp
-  | some p =>
-    simp only [reduceCtorEq, iff_false]
-    repeat' split
-    all_goals simp_all
+theorem err_malformed (C : Crypto) (keys) (req nonce : Bytes) (raw) (resp) (kid)
+    (hv : raw.all visible = true) (hc : (58 : UInt8) ∉ stripEtag raw) :
+    verifyResponse C keys req nonce (some raw) resp kid = .error .etagMalformed := by
+  have := (splitOnce_eq_none_iff 58 (stripEtag raw)).2 hc
+  simp [verifyResponse, hv, this]
 
-theorem err_hash_mismatch_iff (C : Crypto) (keys) (req nonce : Bytes) (raw) (resp) (kid)
+theorem err_hash_malformed (C : Crypto) (keys) (req nonce : Bytes) (raw) (resp) (kid)
     (hv : raw.all visible = true) (sigHex hashHex : Bytes)
-    (hsp : splitOnce 58 (stripEtag raw) = some (sigHex, hashHex)) :
-    verifyResponse C keys req nonce (some raw) resp kid = .error .requestHashMismatch ↔
-      ∃ h, Hex.decode hashHex = some h ∧ h ≠ C.sha256 req := by
-  unfold verifyResponse verifyWithSignature
-  simp only [hv, Bool.true_eq_false, if_false, hsp]
-  cases hh : Hex.decode hashHex with
-  | none => simp
-  | some h =>
-    by_cases hne : h ≠ C.sha256 req
-    · simp [hne]
-    · simp only [hne, if_false, Option.some.injEq, exists_eq_left', iff_false]
-      repeat' split
-      all_goals simp_all
+    (hsp : splitOnce 58 (stripEtag raw) = some (sigHex, hashHex))
+    (hh : Hex.decode hashHex = none) :
+    verifyResponse C keys req nonce (some raw) resp kid = .error .requestHashMalformed := by
+  simp [verifyResponse, hv, hsp, hh]
+
+theorem err_hash_mismatch (C : Crypto) (keys) (req nonce : Bytes) (raw) (resp) (kid)
+    (hv : raw.all visible = true) (sigHex hashHex h : Bytes)
+    (hsp : splitOnce 58 (stripEtag raw) = some (sigHex, hashHex))
+    (hh : Hex.decode hashHex = some h) (hne : h ≠ C.sha256 req) :
+    verifyResponse C keys req nonce (some raw) resp kid = .error .requestHashMismatch := by
+  simp [verifyResponse, hv, hsp, hh, hne]
 
 /-- After the hash matched: a signature that is not hex, not strict DER, out of range or invalid
 for this exchange under the registered key gives `SignatureMalformed` / `SignatureError`, an
@@ -242,7 +220,7 @@ theorem err_after_hash (C : Crypto) (keys) (req nonce : Bytes) (raw) (resp) (kid
       | none => rfl
       | some pk =>
         simp only
-        split <;> rfl
+        by_cases hver : C.ecdsaVerify pk (txHash C req resp kid nonce) r s = true <;> simp [hver]
 
 /-! ### The signed message determines the whole exchange (**txPreimage_injective**) -/
 
@@ -389,11 +367,26 @@ theorem lookupKey_none_iff (keys : List (Nat × PubKey)) (kid : Nat) :
     | none =>
       rw [h] at ih
       simp only [true_iff] at ih
-      by_cases hi : i = kid <;> simp [hi, ih]
+      by_cases hi : i = kid
+      · simp [hi]
+      · simp only [hi, if_false, true_iff, ne_eq, not_false_eq_true, true_and]
+        exact ih
 
 /-! ### `parse_etag` only ever strips ASCII bytes at the ends (**stripEtag_ascii**):
 the result is a contiguous part of the input, so for a header that passed the visible-ASCII check
 it is again ASCII (valid UTF-8), which discharges the `from_utf8_unchecked` obligation. -/
+
+theorem eq_dropLast_append (s : List UInt8) (x : UInt8) (h : s.getLast? = some x) :
+    s = s.dropLast ++ [x] := by
+  induction s with
+  | nil => simp at h
+  | cons a as ih =>
+    cases as with
+    | nil => simp at h; simp [h]
+    | cons b bs =>
+      rw [List.getLast?_cons_cons] at h
+      simp only [List.dropLast_cons_cons, List.cons_append, List.cons.injEq, true_and]
+      exact ih h
 
 theorem dropEndQuote_eq_some (s inner : Bytes) (h : dropEndQuote s = some inner) : s = inner ++ [34] := by
   unfold dropEndQuote at h
@@ -401,23 +394,36 @@ theorem dropEndQuote_eq_some (s inner : Bytes) (h : dropEndQuote s = some inner)
   · rename_i hl
     have := Option.some.inj h
     subst this
-    have hne : s ≠ [] := by intro e; simp [e] at hl
-    have := List.dropLast_append_getLast? 34 (by simpa using hl)
-    exact this.symm
+    exact eq_dropLast_append s 34 hl
   · cases h
+
+theorem dropPrefix_eq_some (p s r : Bytes) (h : dropPrefix p s = some r) : s = p ++ r := by
+  induction p generalizing s with
+  | nil => simp [dropPrefix] at h; simp [h]
+  | cons x p ih =>
+    cases s with
+    | nil => simp [dropPrefix] at h
+    | cons y s =>
+      simp only [dropPrefix] at h
+      split at h
+      · rename_i hxy; subst hxy; simp [ih s h]
+      · cases h
 
 theorem stripEtag_infix (e : Bytes) : ∃ pre suf, e = pre ++ stripEtag e ++ suf := by
   unfold stripEtag
-  split
-  · rename_i rest
-    cases h : dropEndQuote rest with
+  cases h1 : (dropPrefix [87, 47, 34] e).bind dropEndQuote with
+  | some inner =>
+    obtain ⟨rest, hr, hq⟩ := Option.bind_eq_some_iff.1 h1
+    exact ⟨[87, 47, 34], [34], by
+      rw [dropPrefix_eq_some _ _ _ hr, dropEndQuote_eq_some _ _ hq]; simp⟩
+  | none =>
+    simp only
+    cases h2 : (dropPrefix [34] e).bind dropEndQuote with
+    | some inner =>
+      obtain ⟨rest, hr, hq⟩ := Option.bind_eq_some_iff.1 h2
+      exact ⟨[34], [34], by
+        rw [dropPrefix_eq_some _ _ _ hr, dropEndQuote_eq_some _ _ hq]; simp⟩
     | none => exact ⟨[], [], by simp⟩
-    | some inner => exact ⟨[87, 47, 34], [34], by simp [dropEndQuote_eq_some _ _ h]⟩
-  · rename_i rest _
-    cases h : dropEndQuote rest with
-    | none => exact ⟨[], [], by simp⟩
-    | some inner => exact ⟨[34], [34], by simp [dropEndQuote_eq_some _ _ h]⟩
-  · exact ⟨[], [], by simp⟩
 
 theorem stripEtag_ascii (e : Bytes) (h : ∀ b ∈ e, b.toNat < 128) : ∀ b ∈ stripEtag e, b.toNat < 128 := by
   obtain ⟨pre, suf, he⟩ := stripEtag_infix e
@@ -434,54 +440,61 @@ theorem visible_lt_128 (raw : Bytes) (h : raw.all visible = true) : ∀ b ∈ ra
   · subst h; decide
   · omega
 
-/-- The three encodings carry the same content. -/
-theorem stripEtag_encodings (inner : Bytes) (h1 : inner.head? ≠ some 34 ∨ inner.getLast? ≠ some 34)
-    (h2 : ¬ (∃ r, inner = 87 :: 47 :: 34 :: r) ∨ inner.getLast? ≠ some 34) :
-    stripEtag inner = inner ∧ stripEtag (34 :: (inner ++ [34])) = inner ∧
+/-- The quoted and weak-quoted encodings carry their content; anything that is not of one of the
+two quoted shapes is its own content. -/
+theorem stripEtag_quoted (inner : Bytes) (h : inner.head? ≠ some 87) :
+    stripEtag (34 :: (inner ++ [34])) = inner := by
+  unfold stripEtag
+  have h1 : dropPrefix [87, 47, 34] (34 :: (inner ++ [34])) = none := by simp [dropPrefix]
+  have h2 : dropPrefix [34] (34 :: (inner ++ [34])) = some (inner ++ [34]) := by simp [dropPrefix]
+  simp [h1, h2, dropEndQuote]
+
+theorem stripEtag_weak (inner : Bytes) :
     stripEtag (87 :: 47 :: 34 :: (inner ++ [34])) = inner := by
-  refine ⟨?_, ?_, ?_⟩
-  · unfold stripEtag
-    split
-    · rename_i rest
-      rcases h2 with h | h
-      · exact absurd ⟨rest, rfl⟩ h
-      · unfold dropEndQuote
-        have : rest.getLast? ≠ some 34 := by
-          intro hr; apply h
-          cases rest with
-          | nil => simp at hr
-          | cons x xs => simpa [List.getLast?_cons_cons] using hr
-        simp [this]
-    · rename_i rest _
-      rcases h1 with h | h
-      · simp at h
-      · unfold dropEndQuote
+  unfold stripEtag
+  have h1 : dropPrefix [87, 47, 34] (87 :: 47 :: 34 :: (inner ++ [34])) = some (inner ++ [34]) := by
+    simp [dropPrefix]
+  simp [h1, dropEndQuote]
+
+theorem stripEtag_plain (e : Bytes) (h : e.getLast? ≠ some 34) : stripEtag e = e := by
+  unfold stripEtag
+  have key : ∀ p, (dropPrefix p e).bind dropEndQuote = none := by
+    intro p
+    cases hp : dropPrefix p e with
+    | none => rfl
+    | some rest =>
+      simp only [Option.bind_some, dropEndQuote]
+      have he := dropPrefix_eq_some _ _ _ hp
+      have : rest.getLast? ≠ some 34 := by
+        intro hr
+        apply h
+        rw [he]
         cases rest with
-        | nil => simp
+        | nil => simp at hr
         | cons x xs =>
-          have : (x :: xs).getLast? ≠ some 34 := by simpa [List.getLast?_cons_cons] using h
-          simp [this]
-    · rfl
-  · simp [stripEtag, dropEndQuote]
-  · simp [stripEtag, dropEndQuote]
+          obtain ⟨ys, hys⟩ := List.getLast?_eq_some_iff.1 hr
+          rw [hys, ← List.append_assoc]
+          simp
+      simp [this]
+  simp [key]
 
 /-! ### Non-vacuity (the hypotheses of `verify_iff` are satisfiable, with a toy `Crypto` whose
 predicate accepts exactly one message, so the acceptance direction is exercised in the kernel;
 the real SHA-256 / P-256 instantiation is exercised by the driver on every run) -/
 
 def toyCrypto : Crypto := ⟨fun m => List.replicate 32 (UInt8.ofNat m.length),
-  fun pk msg r s => pk == (1, 2) && msg == List.replicate 32 32 && r == 5 && s == 7⟩
+  fun pk msg r s => pk == (1, 2) && msg == List.replicate 32 68 && r == 5 && s == 7⟩
 
 -- ETag  "3006020105020107:0101…01"  (DER (5,7), hash of a 1-byte request body)
 example :
     verifyResponse toyCrypto [(9, (1, 2))] [65] [0xAB] (some
       ([34] ++ Hex.encode [0x30, 6, 2, 1, 5, 2, 1, 7] ++ [58] ++ Hex.encode (List.replicate 32 1) ++ [34]))
-      [66, 67] 9 = .ok [0x30, 6, 2, 1, 5, 2, 1, 7] := by decide
+      [66, 67] 9 matches .ok [0x30, 6, 2, 1, 5, 2, 1, 7] := by decide
 
 example :
     verifyResponse toyCrypto [(9, (1, 2))] [65] [0xAB] (some
       (Hex.encode [0x30, 6, 2, 1, 5, 2, 1, 7] ++ [58] ++ Hex.encode (List.replicate 32 1)))
-      [66, 67] 8 = .error .keyIdMissing := by decide
+      [66, 67] 8 matches .error .keyIdMissing := by decide
 
 example : Der.decodeSig [0x30, 6, 2, 1, 5, 2, 1, 7] = some (5, 7) := by decide
 example : Der.decodeSig [0x30, 7, 2, 2, 0, 5, 2, 1, 7] = none := by decide       -- non-minimal INTEGER
